@@ -130,6 +130,11 @@ class Closure:
         return f"<closure {self.qualname or getattr(self.node, 'name', 'lambda')}>"
 
 
+class SuperProxy:
+    def __init__(self, obj, cls):
+        self.obj, self.cls = obj, cls
+
+
 class Partial:
     def __init__(self, func, args, kwargs):
         self.func, self.args, self.kwargs = func, tuple(args), dict(kwargs)
@@ -186,34 +191,105 @@ class IdxArr:
         return f"IdxArr({self.expr}, n={self.n})"
 
 
-class SymArray:
-    """cell-indexed symbolic array (view).  ``base`` names the underlying array,
-    ``idx`` the indices fixed so far (``ALL`` marks an open slice slot)."""
+AT = sp.Function("at")  # at(expr, *index): element of a symbol that stands for an array
+MASKED = sp.Function("masked")  # masked(new, mask, old): `a[mask] = new` applied to `old`
+RNG = sp.Function("rng")  # rng(lo, hi): half-open index range lo <= k < hi of one axis
 
-    def __init__(self, base: str, idx: tuple = (), interp: "Interp | None" = None):
+
+class SymArray:
+    """cell-indexed symbolic array (view).
+
+    *Kernel mode* (``shape is None``): rank unknown; ``idx`` holds the indices fixed so
+    far, ``ALL`` marks an open slice slot, further indices are appended.
+
+    *Shaped mode* (``shape`` given): every axis of the base array has a slot, either
+    ``("fix", index)`` or ``("open", lo, hi)`` (absolute bounds, hi exclusive).  Ellipsis,
+    negative indices and slices are resolved against the shape, so that a view of a
+    view (``data_full[..., 1:-1][..., index]``) yields absolute indices.
+    """
+
+    def __init__(self, base: str, idx: tuple = (), interp: "Interp | None" = None, shape: tuple | None = None, slots: list | None = None):
         self.base = base
-        self.idx = tuple(idx)
         self.interp = interp
+        self.shape = tuple(shape) if shape is not None else None
+        if self.shape is not None and slots is None:
+            slots = [("open", 0, s) for s in self.shape]
+        self.slots = slots
+        self._idx = tuple(idx)
+
+    @property
+    def idx(self) -> tuple:
+        if self.slots is None:
+            return self._idx
+        out = []
+        for k, s in enumerate(self.slots):
+            if s[0] == "fix":
+                out.append(s[1])
+            else:
+                lo, hi = s[1], s[2]
+                full = sp.simplify(sp.sympify(lo)) == 0 and sp.simplify(sp.sympify(hi) - sp.sympify(self.shape[k])) == 0
+                out.append(ALL if full else RNG(lo, hi))
+        return tuple(out)
 
     def __repr__(self):
         return f"{self.base}{list(self.idx)}"
 
+    @property
+    def open_extents(self) -> tuple:
+        return tuple(s[2] - s[1] for s in self.slots if s[0] == "open") if self.slots is not None else ()
+
     def sub(self, key: tuple) -> "SymArray":
+        if self.slots is None:
+            key = list(key)
+            out = []
+            for s in self._idx:
+                if s is ALL and key:
+                    out.append(key.pop(0))
+                else:
+                    out.append(s)
+            out.extend(key)
+            return SymArray(self.base, tuple(out), self.interp)
+        key = [k for k in key if k is not None]  # np.newaxis adds no base axis
+        n_open = sum(1 for s in self.slots if s[0] == "open")
+        n_expl = sum(1 for k in key if k is not Ellipsis)
+        if n_expl > n_open:
+            raise Unsupported(f"too many indices for {self!r}: {key}")
+        if Ellipsis in key:
+            e = key.index(Ellipsis)
+            key = key[:e] + [ALL] * (n_open - n_expl) + [k for k in key[e + 1 :] if k is not Ellipsis]
         key = list(key)
-        out = []
-        for s in self.idx:
-            if s is ALL and key:
-                out.append(key.pop(0))
+        slots = []
+        for s in self.slots:
+            if s[0] == "fix" or not key:
+                slots.append(s)
+                continue
+            k = key.pop(0)
+            lo, hi = s[1], s[2]
+            if k is ALL:
+                slots.append(s)
+            elif isinstance(k, tuple) and k and k[0] == "slice":
+                a, b, st = k[1], k[2], k[3]
+                if st not in (None, 1):
+                    raise Unsupported("strided slice of a symbolic array")
+                nlo = lo if a is None else (hi + a if _is_neg(a) else lo + a)
+                nhi = hi if b is None else (hi + b if _is_neg(b) else lo + b)
+                slots.append(("open", nlo, nhi))
             else:
-                out.append(s)
-        out.extend(key)
-        return SymArray(self.base, tuple(out), self.interp)
+                kk = sp.sympify(k.cell() if isinstance(k, SymArray) else k)
+                slots.append(("fix", hi + kk if _is_neg(kk) else lo + kk))
+        return SymArray(self.base, (), self.interp, shape=self.shape, slots=slots)
 
     def cell(self):
         idx = tuple(i for i in self.idx)
-        while idx and idx[-1] is ALL:  # trailing open slots carry no information
-            idx = idx[:-1]
+        if self.slots is None:
+            while idx and idx[-1] is ALL:  # trailing open slots carry no information
+                idx = idx[:-1]
         return sp.Function(self.base)(*idx) if idx else sp.Symbol(self.base)
+
+
+def _is_neg(x) -> bool:
+    x = sp.sympify(x)
+    return bool(x.is_number and x < 0)
 
 
 class WholeArr:
@@ -416,6 +492,8 @@ class Interp:
             return f(*[self.as_expr(a, node) for a in args])
         if isinstance(f, UFunc):
             return f(self, args, kwargs, node)
+        if isinstance(f, Model) and "__call__" in f._attrs:
+            return f._attrs["__call__"](*args, **kwargs)
         if callable(f):
             return f(*args, **kwargs)
         self.fail(node, f"cannot call {f!r}")
@@ -469,6 +547,9 @@ class Interp:
                 env.set(a.kwarg.arg, {})
             if isinstance(fn, ast.Lambda):
                 return self.eval(fn.body, env)
+            if c.info is not None and c.info.cls is not None and args:
+                env.set("__class__", ClassRef(c.info.cls))
+                env.set("__self__", args[0])
             self.func_stack.append(c.qualname or fn.name)
             try:
                 self.exec_block(strip_doc(fn.body), env)
@@ -638,7 +719,7 @@ class Interp:
             base = self.eval(t.value, env)
             key = self.eval_index(t.slice, env)
             if isinstance(base, SymArray):
-                self.store(base.sub(key), None, rhs, opname, st)
+                self.store(self._subview(base, key, st), None, rhs, opname, st)
                 return
             if isinstance(base, WholeArr):
                 base.val = self.binop(st.op, base.val, rhs, st)
@@ -687,10 +768,13 @@ class Interp:
             base = self.eval(t.value, env)
             key = self.eval_index(t.slice, env)
             if isinstance(base, SymArray):
-                self.store(base.sub(key), None, v, None, st)
+                self.store(self._subview(base, key, st), None, v, None, st)
             elif isinstance(base, WholeArr):
-                # u[:] = v / u[...] = v : whole-array value update
-                base.val = self.as_expr(v, st)
+                # u[:] = v / u[...] = v : whole-array value update;  u[mask] = v : masked update
+                if len(key) == 1 and isinstance(key[0], sp.Basic) and key[0] is not ALL and (key[0].is_Boolean or key[0].is_Relational or isinstance(key[0], (sp.Not, sp.And, sp.Or)) or getattr(key[0], "func", None) is not None and getattr(key[0].func, "__name__", "") in ("isfinite", "isnan", "isinf", "invert")):
+                    base.val = MASKED(self.as_expr(v, st), key[0], base.val)
+                else:
+                    base.val = self.as_expr(v, st)
                 base.writes += 1
             elif isinstance(base, dict):
                 k = key[0] if len(key) == 1 else key
@@ -710,6 +794,18 @@ class Interp:
             self.fail(st, "starred assignment outside the grammar")
         else:
             self.fail(st, "assignment target outside the grammar")
+
+    def _subview(self, base: SymArray, key, node):
+        if base.slots is None:
+            key = tuple(
+                sp.Function("slice")(*[sp.Symbol("None") if x is None else sp.sympify(x) for x in k[1:]])
+                if isinstance(k, tuple) and k and k[0] == "slice"
+                else k
+                for k in key
+            )
+            if any(k is Ellipsis for k in key):
+                self.fail(node, "ellipsis index into a symbolic array of unknown rank")
+        return base.sub(tuple(key))
 
     def unpack(self, v, n, node):
         if isinstance(v, (tuple, list)):
@@ -986,8 +1082,8 @@ class Interp:
             return list(v)
         if isinstance(v, Vec):
             return list(v.items)
-        if isinstance(v, tuple) and v and v[0] in ("range",):
-            pass
+        if isinstance(v, Model) and "__iter__" in v._attrs:
+            return list(v._attrs["__iter__"]())
         self.fail(node, f"cannot iterate over {v!r}")
 
     def eval_ListComp(self, node, env):
@@ -1068,6 +1164,11 @@ class Interp:
             return self.binop(ast.Mult(), -1, v, node)
         if isinstance(node.op, ast.UAdd):
             return v
+        if isinstance(node.op, ast.Invert):
+            if isinstance(v, bool):
+                return not v
+            if isinstance(v, sp.Basic):
+                return sp.Not(v) if (v.is_Boolean or v.is_Relational) else sp.Function("invert")(v)
         self.fail(node, "unary operator outside the grammar")
 
     def eval_BinOp(self, node, env):
@@ -1276,6 +1377,18 @@ class Interp:
             if not obj._strict:
                 return Opaque(f"{obj._name}.{attr}")
             self.fail(node, f"attribute `{attr}` of {obj!r} is not modelled")
+        if isinstance(obj, SuperProxy):
+            mro = obj.obj._cls.mro() if isinstance(obj.obj, Model) and obj.obj._cls else obj.cls.mro()
+            after = mro[mro.index(obj.cls) + 1 :] if obj.cls in mro else mro[1:]
+            for c in after:
+                for f in c.methods.get(attr, []):
+                    if any(d.endswith(".setter") for d in f.decorator_names):
+                        continue
+                    cl = self.make_closure(f, self.module_env(f.module), bound_self=obj.obj)
+                    if any(d == "property" or d.endswith("cached_property") or d.endswith("cached_property()") for d in f.decorator_names):
+                        return self.call_closure(cl, (), {}, node)
+                    return cl
+            self.fail(node, f"super().{attr} not found")
         if isinstance(obj, Opaque):
             return Opaque(f"{obj.name}.{attr}")
         if isinstance(obj, dict):
@@ -1309,8 +1422,15 @@ class Interp:
                 return obj
             if attr == "copy":
                 return lambda: obj
+            if obj.slots is not None:
+                if attr == "ndim":
+                    return len(obj.open_extents)
+                if attr == "shape":
+                    return tuple(to_py(sp.simplify(e)) if not isinstance(e, int) else e for e in obj.open_extents)
             if attr in ("shape", "ndim", "dtype", "size"):
                 return Opaque(f"{obj.base}.{attr}")
+            if attr == "flat":
+                return obj
             self.fail(node, f"attribute `{attr}` of symbolic array")
         if isinstance(obj, WholeArr):
             if attr == "copy":
@@ -1409,12 +1529,12 @@ class Interp:
         if isinstance(base, SymArray):
             key2 = []
             for k in key:
-                if k is Ellipsis:
-                    self.fail(node, "ellipsis index into a symbolic array")
-                if isinstance(k, tuple) and k and k[0] == "slice":
-                    key2.append(sp.Function("slice")(*[sp.Symbol("None") if x is None else sp.sympify(x) for x in k[1:]]))
-                else:
-                    key2.append(k)
+                if base.slots is None:
+                    if k is Ellipsis:
+                        self.fail(node, "ellipsis index into a symbolic array of unknown rank")
+                    if isinstance(k, tuple) and k and k[0] == "slice":
+                        k = sp.Function("slice")(*[sp.Symbol("None") if x is None else sp.sympify(x) for x in k[1:]])
+                key2.append(k)
             view = base.sub(tuple(key2))
             # a read of a cell that was stored earlier in the same iteration sees the store
             k3 = (view.base, tuple(sp.sympify(i) for i in view.idx), tuple(id(l) for l in self.loops))
@@ -1466,7 +1586,7 @@ class Interp:
                 self.fail(node, "multi-index into a sequence")
             k = key[0]
             if k is ALL:
-                return base
+                return base[:]
             if isinstance(k, tuple) and k and k[0] == "slice":
                 lo, hi, st = (to_py(x) if x is not None else None for x in k[1:])
                 return base[slice(lo, hi, st)]
@@ -1485,13 +1605,26 @@ class Interp:
             return base[k]
         if isinstance(base, Opaque):
             return Opaque(base.name + "[]")
+        if callable(base) and not isinstance(base, (Closure, Model)):
+            return Opaque("type-alias")  # e.g. tuple[int, ...] used as a type alias
         if isinstance(base, sp.Basic):
             # scalar broadcast, e.g. value[...] on a scalar
             if all(k is Ellipsis or k is ALL or k is None for k in key):
                 return base
+            # a symbol standing for an array of per-point values: remember the index
+            kk = [k for k in key if k is not Ellipsis and k is not None]
+            if all(isinstance(k, (int, sp.Basic)) for k in kk):
+                return AT(base, *[sp.sympify(k) for k in kk])
         self.fail(node, f"subscript of {base!r}")
 
     def eval_Call(self, node, env):
+        if isinstance(node.func, ast.Name) and node.func.id == "super" and not node.args and "super" not in self.overrides:
+            try:
+                cls = env.lookup("__class__")
+                slf = env.lookup("__self__")
+            except KeyError:
+                self.fail(node, "super() outside a method")
+            return SuperProxy(slf, cls.info)
         f = self.eval(node.func, env)
         args = []
         for a in node.args:
@@ -1718,6 +1851,14 @@ class Interp:
                 return Vec([array(v) if isinstance(v, (tuple, list)) else v for v in x])
             return x
 
+        def asarray_box(x, *a, **k):
+            """np.asarray of a scalar term: a 0-d array that may be updated in place"""
+            if isinstance(x, (tuple, list)):
+                return array(x)
+            if isinstance(x, (sp.Basic, int)) and not isinstance(x, bool):
+                return WholeArr("arr0d", I.as_expr(x))
+            return x
+
         def _prod(x):
             tot = 1
             for v in I._iterate(x, None):
@@ -1815,8 +1956,11 @@ class Interp:
             "hypot": _hypot,
             "arctan2": _arctan2,
             "array": array,
-            "asarray": array,
+            "asarray": asarray_box,
             "asanyarray": array,
+            "moveaxis": lambda x, *a, **k: x,
+            "isinf": lambda x: sp.Function("isinf")(I.as_expr(x)) if not is_concrete(I.as_expr(x)) else bool(I.as_expr(x) in (sp.oo, -sp.oo)),
+            "empty_like": lambda x, **k: Opaque("np.empty_like()"),
             "atleast_1d": array,
             "ascontiguousarray": array,
             "prod": _prod,
